@@ -126,4 +126,10 @@ pub(crate) mod verif_hooks_dsu {
     pub(crate) fn parents(d: &super::DisjointSetUnion) -> &[usize] {
         &d.parents
     }
+    pub(crate) fn ranks(d: &super::DisjointSetUnion) -> &[usize] {
+        &d.ranks
+    }
+    pub(crate) fn from_parts(parents: Vec<usize>, ranks: Vec<usize>) -> super::DisjointSetUnion {
+        super::DisjointSetUnion { parents, ranks }
+    }
 }
